@@ -97,6 +97,33 @@ type c20Body struct {
 	nearOff int
 }
 
+// c20NearMarker returns a byte string that is one byte away from a marker:
+// the case bit, the high bit or the value of one byte is changed, so that a
+// matcher that masks or folds bytes too generously takes it for a marker.
+func c20NearMarker(c *core.Ctx) []byte {
+	for try := 0; try < 20; try++ {
+		m := []byte(c20RandCase(c, c20Markers[c.Rng.Intn(len(c20Markers))]))
+		i := c.Rng.Intn(len(m))
+		switch c.Rng.Intn(5) {
+		case 0:
+			m[i] ^= 0x20 // '<' -> 0x1c, '/' -> 0x0f (letters just change case)
+		case 1:
+			m[i] ^= 0x80
+		case 2:
+			m[i]++
+		case 3:
+			m[i] &^= 0x20
+		default:
+			m[i] ^= 0x40
+		}
+		if c20FirstMarker(m) == -1 && m[i] != '<' {
+			return m
+		}
+	}
+
+	return []byte("<lin")
+}
+
 func c20MakeBody(c *core.Ctx) c20Body {
 	mode := c.Rng.Intn(3)
 	var buf bytes.Buffer
@@ -133,7 +160,11 @@ func c20MakeBody(c *core.Ctx) c20Body {
 		buf.Write(c20Filler(c, n, mode))
 		if c.Rng.Intn(3) == 0 {
 			// near markers only
-			buf.WriteString([]string{"</hea", "<scrip", "<lin", "<styl", "< script", "<\x00link", "</ head"}[c.Rng.Intn(7)])
+			if c.Rng.Intn(2) == 0 {
+				buf.Write(c20NearMarker(c))
+			} else {
+				buf.WriteString([]string{"</hea", "<scrip", "<lin", "<styl", "< script", "<\x00link", "</ head"}[c.Rng.Intn(7)])
+			}
 			buf.Write(c20Filler(c, c.Rng.Intn(100), mode))
 		}
 
@@ -144,6 +175,12 @@ func c20MakeBody(c *core.Ctx) c20Body {
 		// A near-marker before the real one.
 		b := buf.Bytes()
 		nm := []string{"</hea>", "<scrip>", "<lin", "<sty le"}[c.Rng.Intn(4)]
+		if c.Rng.Intn(2) == 0 {
+			nm = string(c20NearMarker(c)) + ">"
+		}
+		if pos <= len(nm)+1 {
+			nm = "<x"
+		}
 		at := c.Rng.Intn(pos - len(nm))
 		copy(b[at:], nm)
 	}
@@ -304,7 +341,7 @@ func init() {
 	core.Register(&core.Prop{
 		ID:    "C20",
 		Level: "exploration",
-		Rule: "per case 4 bodies: ASCII, all 256 byte values or mostly high bytes, plain or gzip-encoded, with 0..4 markers (</head, <link, <style, <script in random letter case) whose first occurrence is placed at 0, early, at 16383/16384, straddling the window, beyond it, or where high-byte padding moves the transcoded offset over the window, with near-markers before it; " +
+		Rule: "per case 4 bodies: ASCII, all 256 byte values or mostly high bytes, plain or gzip-encoded, with 0..4 markers (</head, <link, <style, <script in random letter case) whose first occurrence is placed at 0, early, at 16383/16384, straddling the window, beyond it, or where high-byte padding moves the transcoded offset over the window, with near-markers before it (truncated markers and markers with one byte changed in its case bit, high bit or value, e.g. 0x1c for '<'); " +
 			"oracle on bytes: output == body[:i]+tag+body[i:] when the marker's transcoded offset is inside the window, output == body when no marker starts before byte 16384, either exact form in between; Content-Length == len(output), Content-Encoding removed, tag has the content-script form (hook VerifFilterHTML); non-trivial = body with a marker; distinct by body head, marker offset and encoding",
 		Assumptions: []string{
 			"the 16 KiB window is measured by the code on the Latin-1 to UTF-8 transcoded text; between the byte and the transcoded bound either outcome is accepted",
